@@ -105,6 +105,11 @@ func (p *c04) RunCase(ctx *runner.Ctx) runner.CaseResult {
 		defer useTypedPools(r)()
 		x.r.Counters["typed_key_states"]++
 	}
+	if ctx.Case%4 == 3 {
+		// partitions whose names are prefixes of one another, continued by a character below '.'
+		defer usePrefixPartitions()()
+		x.r.Counters["prefix_partition_states"]++
+	}
 	spec := ixSpec("tbl04", true)
 	nOps := 10 + r.Intn(25)
 	big := ctx.Case%10 == 7
